@@ -271,6 +271,15 @@ def call_builtin(ex, f, args, kwargs, line):
             return mk_int(z3.If(z3.And(half, r0 % 2 != 0), r0 - 1, r0))
         if len(args) == 1 and isinstance(args[0], SInt):
             return args[0]
+        if len(args) == 2 and isinstance(args[0], SReal) and isinstance(args[1], int) and not isinstance(args[1], bool) \
+                and 0 <= args[1] <= 9:
+            # round(x, n) = round-half-even(x * 10^n) / 10^n, exactly, on the real the float stands for
+            k = 10 ** args[1]
+            x = args[0].e * z3.RealVal(k)
+            r0 = z3.ToInt(x + z3.RealVal(1) / 2)
+            half = z3.ToReal(r0) == x + z3.RealVal(1) / 2
+            ex.ctx.tags.add("float-as-real")
+            return SReal(z3.ToReal(z3.If(z3.And(half, r0 % 2 != 0), r0 - 1, r0)) / z3.RealVal(k))
         raise Unsupported("round() of symbolic value")
     if name == "chr":
         (x,) = args
